@@ -387,6 +387,7 @@ package url
 //@   ensures i.eof ==> !result
 //@   ensures result ==> (!i.eof && len(s) <= 4 * (i.length - i.pointer - 1))
 //@   ensures (result && len(s) >= 1 && s[0] < 128) ==> (i.pointer + 1 < i.length && i.runes[i.pointer + 1] == s[0])
+//@   ensures (!i.eof && len(s) == 1 && s[0] < 128) ==> (result == (i.pointer + 1 < i.length && i.runes[i.pointer + 1] == s[0]))
 
 //@ func (*inputString).remainingIsInvalidPercentEncoded
 //@   requires cur(i) && 0 <= i.pointer
@@ -771,6 +772,28 @@ package url
 //@   loop 1 invariant (!stateOverridden && state == StateOpaquePath) ==> (!special(url, url.scheme) && url.host == nil)
 //@   loop 1 invariant (!stateOverridden && state == StatePathOrAuthority) ==> !special(url, url.scheme)
 //@   loop 1 invariant (!stateOverridden && state == StatePort) ==> url.host != nil
+//@   loop 1 step prev(state) == StateSchemeStart ==> (specIsAlpha(r) ? (state == StateScheme && input.pointer == prev(input.pointer) + 1) : (state == StateNoScheme && input.pointer == prev(input.pointer)))   [C01,C05 state-transition]
+//@   loop 1 step (prev(state) == StateScheme && (specIsAlnum(r) || r == 0x2B || r == 0x2D || r == 0x2E)) ==> (state == StateScheme && input.pointer == prev(input.pointer) + 1)   [C01,C05 state-transition]
+//@   loop 1 step (prev(state) == StateScheme && r == 0x3A) ==> (url.scheme == "file" ? (state == StateFile && input.pointer == prev(input.pointer) + 1) : ((special(url, url.scheme) && base != nil && base.scheme == url.scheme) ? (state == StateSpecialRelativeOrAuthority && input.pointer == prev(input.pointer) + 1) : (special(url, url.scheme) ? (state == StateSpecialAuthoritySlashes && input.pointer == prev(input.pointer) + 1) : ((prev(input.pointer) + 2 < input.length && inC(url)[prev(input.pointer) + 2] == 0x2F) ? (state == StatePathOrAuthority && input.pointer == prev(input.pointer) + 2) : (state == StateOpaquePath && input.pointer == prev(input.pointer) + 1)))))   [C01,C05 state-transition]
+//@   loop 1 step (prev(state) == StateScheme && !(specIsAlnum(r) || r == 0x2B || r == 0x2D || r == 0x2E) && r != 0x3A) ==> (state == StateNoScheme && input.pointer == -1)   [C01,C05 state-transition]
+//@   loop 1 step prev(state) == StateNoScheme ==> (baseUrl.path.opaque ? (state == StateFragment && input.pointer == prev(input.pointer) + 1) : (base.scheme != "file" ? (state == StateRelative && input.pointer == prev(input.pointer)) : (state == StateFile && input.pointer == prev(input.pointer))))   [C01,C05 state-transition]
+//@   loop 1 step prev(state) == StateSpecialRelativeOrAuthority ==> ((r == 0x2F && (prev(input.pointer) + 2 < input.length && inC(url)[prev(input.pointer) + 2] == 0x2F)) ? (state == StateSpecialAuthorityIgnoreSlashes && input.pointer == prev(input.pointer) + 2) : (state == StateRelative && input.pointer == prev(input.pointer)))   [C01,C05 state-transition]
+//@   loop 1 step prev(state) == StatePathOrAuthority ==> (r == 0x2F ? (state == StateAuthority && input.pointer == prev(input.pointer) + 1) : (state == StatePath && input.pointer == prev(input.pointer)))   [C01,C05 state-transition]
+//@   loop 1 step prev(state) == StateRelative ==> ((r == 0x2F || (special(url, url.scheme) && r == 0x5C)) ? (state == StateRelativeSlash && input.pointer == prev(input.pointer) + 1) : (r == 0x3F ? (state == StateQuery && input.pointer == prev(input.pointer) + 1) : (r == 0x23 ? (state == StateFragment && input.pointer == prev(input.pointer) + 1) : (state == StatePath && input.pointer == prev(input.pointer)))))   [C01,C05 state-transition]
+//@   loop 1 step prev(state) == StateRelativeSlash ==> ((special(url, url.scheme) && (r == 0x2F || r == 0x5C)) ? (state == StateSpecialAuthorityIgnoreSlashes && input.pointer == prev(input.pointer) + 1) : (r == 0x2F ? (state == StateAuthority && input.pointer == prev(input.pointer) + 1) : (state == StatePath && input.pointer == prev(input.pointer))))   [C01,C05 state-transition]
+//@   loop 1 step prev(state) == StateSpecialAuthoritySlashes ==> ((r == 0x2F && (prev(input.pointer) + 2 < input.length && inC(url)[prev(input.pointer) + 2] == 0x2F)) ? (state == StateSpecialAuthorityIgnoreSlashes && input.pointer == prev(input.pointer) + 2) : (state == StateSpecialAuthorityIgnoreSlashes && input.pointer == prev(input.pointer)))   [C01,C05 state-transition]
+//@   loop 1 step prev(state) == StateSpecialAuthorityIgnoreSlashes ==> ((r != 0x2F && r != 0x5C) ? (state == StateAuthority && input.pointer == prev(input.pointer)) : (state == StateSpecialAuthorityIgnoreSlashes && input.pointer == prev(input.pointer) + 1))   [C01,C05 state-transition]
+//@   loop 1 step prev(state) == StateAuthority ==> (r == 0x40 ? (state == StateAuthority && input.pointer == prev(input.pointer) + 1) : ((prev(input.pointer) + 1 >= input.length || r == 0x2F || r == 0x3F || r == 0x23 || (special(url, url.scheme) && r == 0x5C)) ? (state == StateHost && input.pointer == prev(input.pointer) - runeCount(prev(bufv(buffer)))) : (state == StateAuthority && input.pointer == prev(input.pointer) + 1)))   [C01,C05 state-transition]
+//@   loop 1 step (prev(state) == StateHost || prev(state) == StateHostname) ==> ((stateOverridden && url.scheme == "file") ? (state == StateFileHost && input.pointer == prev(input.pointer)) : ((r == 0x3A && !prev(bracketFlag)) ? (state == StatePort && input.pointer == prev(input.pointer) + 1) : ((prev(input.pointer) + 1 >= input.length || r == 0x2F || r == 0x3F || r == 0x23 || (special(url, url.scheme) && r == 0x5C)) ? (state == StatePathStart && input.pointer == prev(input.pointer)) : (state == prev(state) && input.pointer == prev(input.pointer) + 1))))   [C01,C05 state-transition]
+//@   loop 1 step prev(state) == StatePort ==> (specIsDigit(r) ? (state == StatePort && input.pointer == prev(input.pointer) + 1) : (state == StatePathStart && input.pointer == prev(input.pointer)))   [C01,C05 state-transition]
+//@   loop 1 step prev(state) == StateFile ==> ((r == 0x2F || r == 0x5C) ? (state == StateFileSlash && input.pointer == prev(input.pointer) + 1) : ((base != nil && base.scheme == "file") ? (r == 0x3F ? (state == StateQuery && input.pointer == prev(input.pointer) + 1) : (r == 0x23 ? (state == StateFragment && input.pointer == prev(input.pointer) + 1) : (state == StatePath && input.pointer == prev(input.pointer)))) : (state == StatePath && input.pointer == prev(input.pointer))))   [C01,C05 state-transition]
+//@   loop 1 step prev(state) == StateFileSlash ==> ((r == 0x2F || r == 0x5C) ? (state == StateFileHost && input.pointer == prev(input.pointer) + 1) : (state == StatePath && input.pointer == prev(input.pointer)))   [C01,C05 state-transition]
+//@   loop 1 step prev(state) == StateFileHost ==> ((prev(input.pointer) + 1 >= input.length || r == 0x2F || r == 0x5C || r == 0x3F || r == 0x23) ? (input.pointer == prev(input.pointer) && state == ((!stateOverridden && resultOf("url.isWindowsDriveLetter", prev(bufv(buffer)))) ? StatePath : StatePathStart)) : (state == StateFileHost && input.pointer == prev(input.pointer) + 1))   [C01,C05 state-transition]
+//@   loop 1 step prev(state) == StatePathStart ==> ((special(url, url.scheme) && !p.opts.skipTrailingSlashNormalization) ? (state == StatePath && input.pointer == ((r == 0x2F || r == 0x5C) ? prev(input.pointer) + 1 : prev(input.pointer))) : ((!stateOverridden && r == 0x3F) ? (state == StateQuery && input.pointer == prev(input.pointer) + 1) : ((!stateOverridden && r == 0x23) ? (state == StateFragment && input.pointer == prev(input.pointer) + 1) : (state == StatePath && input.pointer == (r == 0x2F ? prev(input.pointer) + 1 : prev(input.pointer))))))   [C01,C05 state-transition]
+//@   loop 1 step prev(state) == StatePath ==> ((!stateOverridden && r == 0x3F) ? (state == StateQuery && input.pointer == prev(input.pointer) + 1) : ((!stateOverridden && r == 0x23) ? (state == StateFragment && input.pointer == prev(input.pointer) + 1) : (state == StatePath && input.pointer == prev(input.pointer) + 1)))   [C01,C05 state-transition]
+//@   loop 1 step prev(state) == StateOpaquePath ==> (r == 0x3F ? (state == StateQuery && input.pointer == prev(input.pointer) + 1) : (r == 0x23 ? (state == StateFragment && input.pointer == prev(input.pointer) + 1) : (state == StateOpaquePath && input.pointer == prev(input.pointer) + 1)))   [C01,C05 state-transition]
+//@   loop 1 step prev(state) == StateQuery ==> ((!stateOverridden && r == 0x23) ? (state == StateFragment && input.pointer == prev(input.pointer) + 1) : (state == StateQuery && input.pointer == prev(input.pointer) + 1))   [C01,C05 state-transition]
+//@   loop 1 step prev(state) == StateFragment ==> (state == StateFragment && input.pointer == prev(input.pointer) + 1)   [C01,C05 state-transition]
 //@   loop 1 decreases specRank(state), input.length - input.pointer
 //@   loop 2 modifies url.username, url.password, bb.pointer, bb.eof
 //@   loop 2 invariant cur(bb) && fresh(bb) && bb != input && url != nil
